@@ -1307,6 +1307,151 @@ def est_ctx_unit(chk, unit, cache):
                                 eval_est(chk, case, cache)
 
 
+# ----------------------------------------------------------------------
+# T: the same VALUES presented as Python objects and as numpy scalars / other containers
+# ----------------------------------------------------------------------
+TYPE_VARIANTS = ("py", "np_bool", "np_int64", "np_int32", "np_uint8", "cc_list", "cc_tuple", "cc_int8", "cc_float",
+                 "cc_bool", "all_numpy", "np_size")
+
+
+def _typed(tv, what, v):
+    """value v of argument kind `what` ('bool' | 'int' | 'cc') in the presentation of type variant tv"""
+    if what == "bool":
+        return np.bool_(v) if tv in ("np_bool", "all_numpy") else bool(v)
+    if what == "int":
+        t = {"np_int64": np.int64, "all_numpy": np.int64, "np_int32": np.int32, "np_uint8": np.uint8}.get(tv)
+        if t is None or (t is np.uint8 and not 0 <= v < 256):
+            return int(v)
+        return t(v)
+    if v is None:
+        return None
+    if tv == "cc_list":
+        return [int(e) for e in v]
+    if tv == "cc_tuple":
+        return tuple(int(e) for e in v)
+    if tv in ("cc_int8", "all_numpy"):
+        return np.array(v, dtype=np.int8)
+    if tv == "cc_float":
+        return np.array(v, dtype=float)
+    if tv == "cc_bool" and all(e == 1 for e in v):
+        return np.array([True] * len(v))
+    return np.array(v)
+
+
+def typed_run(case):
+    """construct root -> user sequence -> estimator -> estimate with every argument in the presentation case['tv'];
+    returns (sequence, estimate, truth, taps, nbins, Nr)"""
+    from pyphysim.reference_signals.channel_estimation import (CazacBasedChannelEstimator,
+                                                               CazacBasedWithOCCChannelEstimator)
+    from pyphysim.reference_signals.dmrs import DmrsUeSequence
+    from pyphysim.reference_signals.root_sequence import RootSequence
+    from pyphysim.reference_signals.srs import SrsUeSequence
+    tv, N, kind, norm, shift, root = case["tv"], case["N"], case["kind"], case["normalize"], case["shift"], case["root"]
+    L, K, rx = case["L"], case["K"], case["rx"]
+    skind, D, mult, cc, xd, variant = kind_info(kind)
+    occ = variant == "occ"
+    Nr = 1 if rx == "1d" else int(rx)
+    # the size is typed on its own ('np_size'): a tree that insists on a Python int there would hide every other int
+    rs = RootSequence(root_index=_typed(tv, "int", root), size=np.int64(N) if tv == "np_size" else int(N))
+    if skind == "srs":
+        ue = SrsUeSequence(rs, _typed(tv, "int", shift), normalize=_typed(tv, "bool", norm))
+    else:
+        ue = DmrsUeSequence(rs, _typed(tv, "int", shift), cover_code=_typed(tv, "cc", COVER_CODES[cc]),
+                            normalize=_typed(tv, "bool", norm))
+    seq = np.asarray(ue.seq_array())
+    if seq.shape != ((2, N) if occ else (N,)) or seq.dtype.kind not in "cf":
+        raise LibraryOutput(("typed_arguments", tv, "sequence_shape"), (seq.shape, str(seq.dtype)), (2, N) if occ else (N,))
+    nbins = mult * N
+    taps = families.generic(case["fam"], (Nr, L), True, offset=case["off_h"], tag=TAG_H)
+    H = true_response(taps, nbins)
+    Hp = H[:, ::mult]
+    Y = seq[None, :, :] * Hp[:, None, :] if occ else seq[None, :] * Hp
+    if occ:
+        obs = (Y[0] if xd else Y[0].reshape(-1)) if rx == "1d" else (Y if xd else Y.reshape(Nr, -1))
+        est = CazacBasedWithOCCChannelEstimator(ue).estimate_channel_freq_domain(
+            np.ascontiguousarray(obs), _typed(tv, "int", K), extra_dimension=_typed(tv, "bool", xd))
+    else:
+        obs = Y[0] if rx == "1d" else Y
+        est = CazacBasedChannelEstimator(ue, size_multiplier=_typed(tv, "int", mult)).estimate_channel_freq_domain(
+            np.ascontiguousarray(obs), _typed(tv, "int", K))
+    return seq, np.asarray(est), (H[0] if rx == "1d" else H), taps, nbins, Nr, bool(ue.normalized)
+
+
+def typed_judge(case, seq, est, want, taps, nbins, Nr):
+    """the relations of the Python-typed call: constant amplitude 1 or 1/sqrt(N); exact single-user estimate"""
+    N, K = case["N"], case["K"]
+    amp = np.abs(seq)
+    level = float(amp.flat[0])
+    if not (np.max(np.abs(amp - level)) <= 4 * C_AMP * numerics.EPS and
+            (abs(level - 1.0) <= 4 * C_AMP * numerics.EPS or abs(level * math.sqrt(N) - 1.0) <= 64 * numerics.EPS)):
+        return "sequence_amplitude", "|x| ranges %.6g..%.6g" % (amp.min(), amp.max())
+    if shape_of(est) != shape_of(want):
+        return "estimate_shape", "%r instead of %r" % (shape_of(est), shape_of(want))
+    scale = max(numerics.scale(want), float(np.sum(np.abs(taps), axis=1).max()))
+    if not numerics.close(est, want, 2 * math.pi * N, C_EST, scale_=scale):
+        H = want.reshape(Nr, -1)
+        return ("estimate_not_exact_" + diagnose(est.reshape(Nr, -1), H, taps, K, nbins),
+                "max |est - H| = %.6g (max|H| = %.4g)" % (numerics.err(est, want), numerics.scale(want)))
+    return None
+
+
+def eval_typed(chk, case):
+    """one configuration with Python-typed arguments, then with the numpy-typed / re-packaged arguments of equal
+    value.  A loud rejection of a presentation is an OUTCOME (no wrong value was produced); an accepted call is
+    judged by the same relations as the Python-typed call"""
+    py = dict(case, tv="py")
+    r = typed_run(py)                                   # a valid, plainly typed call: exceptions are violations
+    chk.count("eval_typed_argument_cases")
+    bad = typed_judge(py, *r[:6])
+    if bad:
+        chk.count("excluded_typed_base_case_wrong")      # reported by parts S / E with their own signatures
+        return
+    tv = case["tv"]
+    if tv == "py":
+        return
+    try:
+        r = typed_run(case)
+    except (KeyboardInterrupt, SystemExit, Broken, LibraryOutput):
+        raise
+    except Exception as e:       # noqa
+        if raised_by_own_code(e):
+            raise
+        chk.outcome("typed_arguments", (tv, case["kind"], "rejected:" + type(e).__name__))
+        return
+    chk.count("eval_typed_argument_cases")
+    chk.outcome("typed_arguments", (tv, case["kind"], "accepted"))
+    if case["normalize"]:
+        level = float(np.abs(r[0]).flat[0])
+        chk.outcome("typed_normalize", (tv, "honoured" if abs(level * math.sqrt(case["N"]) - 1) < 1e-9 else "ignored",
+                                        "reports_normalized" if r[6] else "reports_not_normalized"))
+    chk.nontriv(("typed", tv, case["N"], case["kind"], case["normalize"], case["shift"], case["L"], case["rx"]))
+    bad = typed_judge(case, *r[:6])
+    if bad:
+        chk.fail(("typed_arguments", tv, "normalize_on" if case["normalize"] else "normalize_off", bad[0]), case,
+                 observed=bad[1], expected="the relations the Python-typed call satisfies",
+                 msg="same values, arguments presented as %s" % tv)
+
+
+def typed_unit(chk, unit):
+    _, N, root = unit
+    off_h = common.seed_offset(TAG_H)
+    for kind in ("srs_comb", "dmrs_plain", "occ[1,-1]_xd", "occ[1,1]_flat"):
+        skind, D, mult, cc, xd, variant = kind_info(kind)
+        for norm in (False, True):
+            for shift in (0, 3):
+                for L, K in ((1, 0), (2, 1)):
+                    for rx in ("1d", 2):
+                        for tv in TYPE_VARIANTS:
+                            if tv.startswith("cc_") and variant != "occ":
+                                continue
+                            if tv == "cc_bool" and cc != "[1,1]":
+                                continue
+                            case = {"part": "T", "tv": tv, "N": N, "kind": kind, "normalize": norm, "shift": shift,
+                                    "root": root, "L": L, "K": K, "rx": rx, "fam": (N + 7 * shift + L) % 977, "off_h": off_h}
+                            with guard(chk, ("typed_arguments", tv), case):
+                                eval_typed(chk, case)
+
+
 def est_hist_unit(chk, unit, cache):
     _, N, kind, norm, root, maxlen = unit
     skind, D, mult, cc, xd, variant = kind_info(kind)
@@ -1792,6 +1937,8 @@ def all_units(tier):
         for form in ("2d", "3d_shared_pilots", "3d_per_realization"):
             hx.append(("ls_ctx", shape, form, 60 if thorough else 12))
     hx.append(("root_pool", 3))
+    for N in ([40, 48] if not thorough else [24, 25, 40, 48, 144]):
+        hx.append(("typed", N, est_root(N, "seed")))
     hx.append(("est_pool", 4 if thorough else 3))
     big = [("srs_comb", False, "last")]
     if thorough:
@@ -1900,6 +2047,8 @@ def _run_unit(chk, unit, tools, cache):
         est_hist_unit(chk, unit, cache)
     elif what == "hist_seq":
         seq_hist_unit(chk, unit)
+    elif what == "typed":
+        typed_unit(chk, unit)
     elif what == "root_pool":
         root_pool_unit(chk, unit)
     elif what == "est_pool":
@@ -1983,6 +2132,7 @@ def main(chk: Check):
     chk.require_outcomes("root_pool_event", 16)
     chk.require_outcomes("estimator_pool_action", 30)
     chk.require_outcomes("largest_size", 1)
+    chk.require_outcomes("typed_arguments", 12)
     chk.require_outcomes("estimator_history_event", 12)
 
 
@@ -2029,6 +2179,10 @@ def replay(case, chk: Check):
             eval_est(chk, c, cache)
     elif part == "unit":
         run_unit(chk, _as_tuple(case["unit"]), tools, cache)
+    elif part == "T":
+        c = dict(case)
+        with guard(chk, ("typed_arguments", c["tv"]), c):
+            eval_typed(chk, c)
     elif part == "HR":
         c = {"part": "HR", "history": list(case["history"])}
         with guard(chk, ("root_pool_history",), c):
